@@ -138,3 +138,6 @@ package wamp
 //@ iface (Peer) IsLocal
 //@   pure
 //@   ensures [def] result == method(recv, "IsLocal")
+
+//@ iface (Peer) Close
+//@   modifies ghost closed
